@@ -115,6 +115,12 @@ class Multiplication:
         edges.append(l)
     for l in edges:
       lc = l.clone()
+      if not gfapy.is_placeholder(lc.name):
+        # the copy of an identified edge needs an identifier of its own
+        if lc.record_type == "E":
+          lc.eid = self.unused_name()
+        else:
+          lc.set("ID", self.unused_name())
       if lc.from_segment == segment.name:
         lc.from_segment = clone_name
       if lc.to_segment == segment.name:
